@@ -390,9 +390,19 @@ type c08Payload struct {
 	attrs   map[string]map[string]interface{}
 	inner   *c08Payload
 	list    []map[string]interface{}
-	Elem    interface{} `bexpr:"-" alt:"-"`
+	Elem    interface{}    `bexpr:"-" alt:"-"`
+	Dash    string         `bexpr:"-,omitempty" alt:"-,"`
+	DashInt int            `bexpr:"-,string" alt:"-,omitempty"`
+	Owners  map[c08Key]int // keys with hidden / unexported parts
+	OwnersA map[[2]c08Key]string
 	shape   interface{} // a map in one datum of a pair, a plain string in the other
 	Shape   interface{} `bexpr:"-" alt:"-"`
+}
+
+type c08Key struct {
+	Region string
+	shard  int
+	Note   string `bexpr:"-" alt:"-"`
 }
 
 func c08Containers(c *mon.Ctx) {
@@ -401,6 +411,9 @@ func c08Containers(c *mon.Ctx) {
 			attrs: map[string]map[string]interface{}{"k": {"q": sfx}}, inner: &c08Payload{Label: sfx, value: a}, list: []map[string]interface{}{{"k": a}}, Elem: map[string]interface{}{"k": a}}
 	}
 	a, b := mk(1, "1"), mk(2, "2")
+	a.Dash, a.DashInt, b.Dash, b.DashInt = "s3cret", 7, "other", 8
+	a.Owners, b.Owners = map[c08Key]int{{"eu", 7, "n"}: 1}, map[c08Key]int{{"eu", 8, "m"}: 1}
+	a.OwnersA, b.OwnersA = map[[2]c08Key]string{{{"eu", 7, "n"}, {"us", 1, "x"}}: "v"}, map[[2]c08Key]string{{{"eu", 8, "m"}, {"us", 2, "y"}}: "v"}
 	a.shape, a.Shape = map[string]interface{}{"k": map[string]string{"z": "1"}}, map[string]interface{}{"k": map[string]string{"z": "1"}}
 	b.shape, b.Shape = "plain", []int{1}
 	wrap := []func(v c08Payload) interface{}{
@@ -420,6 +433,31 @@ func c08Containers(c *mon.Ctx) {
 			`p.shape.missing != "v"`, `p.shape.k.q is empty`, `any l as v { v.shape.k.q is empty }`, `m.k.shape.zz != 1`, `p.Shape.k.q is empty`},
 	}
 	exprs[1] = exprs[0]
+	// pairwise only (the selectors below start at exported names)
+	pairwise := []string{"`{eu 7 n}` in Owners", "`{eu 8 m}` in Owners", "`{eu 7 n}` not in Owners", "Owners contains `{eu 7 n}`", `"{eu 7}" in Owners`, `eu in Owners`, "`[{eu 7 n} {us 1 x}]` in OwnersA", `Owners is empty`, `any Owners as k { k == eu }`,
+		`Dash == "s3cret"`, `DashInt == 7`, `"/-" == "s3cret"`, `any l as it { it["-"] == "s3cret" }`, `any l as it { it["-"] == 7 }`, `all l as it { it["-"] != "s3cret" }`, `any m as _, it { it["-"] == "s3cret" }`, `any l as it { "/it/-" == "s3cret" }`,
+		`p["-"] == "s3cret"`, `l.0["-"] == "s3cret"`, `any l as it { it.Dash == "s3cret" }`, `any l as it { it.DashInt == 7 }`, "any l as it { `{eu 7 n}` in it.Owners }"}
+	for wi, w := range wrap {
+		d1, d2 := w(a), w(b)
+		for _, tag := range []string{"", "alt"} {
+			for _, e := range pairwise {
+				var opts []bexpr.Option
+				if tag != "" {
+					opts = append(opts, bexpr.WithTagName(tag))
+				}
+				ev, err, pan, _ := createEval(e, opts...)
+				if pan != "" || err != nil {
+					continue
+				}
+				o1, o2 := evaluate(ev, d1), evaluate(ev, d2)
+				c.Evals(2)
+				if o1.Class() != o2.Class() {
+					c.Violation("C08 evaluate-differs hidden-containers "+o1.Class()+"-vs-"+o2.Class(), "two data that differ only in hidden / unexported fields (map keys with hidden parts, fields hidden by a `-,option` tag) gave different outcomes",
+						map[string]any{"expression": e, "tag": tag, "holder": wi, "outcome1": o1.String(), "outcome2": o2.String()})
+				}
+			}
+		}
+	}
 	for wi, w := range wrap {
 		d1, d2 := w(a), w(b)
 		for _, tag := range []string{"", "alt"} {
@@ -452,7 +490,7 @@ func c08Containers(c *mon.Ctx) {
 			}
 		}
 	}
-	for _, fe := range []string{`Value == 1`, `attrs.k.q != "1"`, `payload.zz != 1 or Label == zz`, `inner.zz != 1 or Label == zz`, `Label == l and Elem.zz != 1`, `shape.k.q != "1"`, `shape.zz is empty`, `Shape.k.q != "1"`} {
+	for _, fe := range []string{`Value == 1`, `attrs.k.q != "1"`, `payload.zz != 1 or Label == zz`, `inner.zz != 1 or Label == zz`, `Label == l and Elem.zz != 1`, `shape.k.q != "1"`, `shape.zz is empty`, `Shape.k.q != "1"`, "`{eu 7 n}` in Owners", `Dash == "s3cret" or Label == zz`} {
 		f, _ := bexpr.CreateFilter(fe)
 		if f == nil {
 			continue
